@@ -1,21 +1,1002 @@
-//! Monitor for property C15 (see /verif/DESIGN.md §6).
+//! Monitor for property C15 — `HBox::pack` yields TeX's box dimensions and glue setting
+//! (DESIGN.md §6 C15; TeX: The Program §649–667).
+//!
+//! Observed event: the fields of the `ds::HBox` returned by the real
+//! `boxworks::ds::HBox::pack(font_repo, list, Exact|Additional)`.
+//!
+//! Oracle: `vmodels::hpack` (own transcription of §649–667 with the four-element
+//! total_stretch/total_shrink arrays). Compared: width, height, depth (shifted boxes), the glue set
+//! as an exact rational in absolute value (`HBox` has no glue_sign field and the repository's own
+//! `GlueRatio` equality/printing ignores the sign, so the direction is taken from the sign of the
+//! excess exactly as TeX does), its printed form (§186), the glue order whenever the ratio is
+//! non-zero, plus a model-free conservation check ("the stretched/shrunk contents fill the box").
+//!
+//! Known finding C15-dominating-order-only is attributed by trigger predicate + deviation model
+//! (`vmodels::hpack::hpack_dominating_order_only`).
+
+use boxworks::ds;
+use common::{GlueOrder, Scaled};
+use std::rc::Rc;
 use vcore::*;
+use vmodels::hpack as model;
+use vmodels::hpack::{Item, Packed, Sign, Target};
 
 pub struct M;
 pub static MONITOR: M = M;
+
+const PT: i32 = 65536;
+const KNOWN_DOM: &str = "C15-dominating-order-only";
+const KNOWN_SWAP: &str = "C15-box-rule-width-height-swapped";
+
+// ------------------------------------------------------------------------------------------
+// synthetic font repository: dimensions are a pure function of (char, font)
+
+struct SynthFont;
+
+fn synth_dims(c: char, font: u32) -> Option<[i32; 3]> {
+    if !c.is_ascii_lowercase() && !c.is_ascii_uppercase() && c != '-' {
+        return None;
+    }
+    let k = (c as u32).wrapping_mul(2654435761).wrapping_add(font.wrapping_mul(40503));
+    // widths 0 .. 12pt in steps that are not multiples of a point; some exactly 0
+    let w = match k % 11 {
+        0 => 0,
+        r => (r as i32) * PT + ((k >> 8) % 4096) as i32,
+    };
+    let h = (((k >> 4) % 9) as i32) * (PT / 2) + ((k >> 12) % 1000) as i32;
+    let d = match (k >> 7) % 4 {
+        0 => 0,
+        r => (r as i32) * (PT / 3),
+    };
+    Some([w, h, d])
+}
+
+impl boxworks::FontRepo for SynthFont {
+    fn width(&self, c: char, font: u32) -> Option<Scaled> {
+        synth_dims(c, font).map(|d| Scaled(d[0]))
+    }
+    fn height(&self, c: char, font: u32) -> Option<Scaled> {
+        synth_dims(c, font).map(|d| Scaled(d[1]))
+    }
+    fn depth(&self, c: char, font: u32) -> Option<Scaled> {
+        synth_dims(c, font).map(|d| Scaled(d[2]))
+    }
+}
+
+// ------------------------------------------------------------------------------------------
+// conversion ds::Horizontal -> model item
+
+fn ord_of(o: GlueOrder) -> usize {
+    match o {
+        GlueOrder::Normal => 0,
+        GlueOrder::Fil => 1,
+        GlueOrder::Fill => 2,
+        GlueOrder::Filll => 3,
+    }
+}
+
+fn order_from(o: usize) -> GlueOrder {
+    match o {
+        0 => GlueOrder::Normal,
+        1 => GlueOrder::Fil,
+        2 => GlueOrder::Fill,
+        _ => GlueOrder::Filll,
+    }
+}
+
+/// A box/rule item as TeX reads it (§653), or - with `swapped` - as the code reads it today
+/// (known finding C15-box-rule-width-height-swapped: the array built for HBox/VBox/Rule is
+/// `[height - shift, width, depth + shift]` but is destructured as `[w, h, d]`).
+fn boxy(w: i32, h: i32, d: i32, shift: i32, swapped: bool) -> Item {
+    if swapped {
+        Item::Boxy {
+            w: (h as i64 - shift as i64).clamp(i32::MIN as i64, i32::MAX as i64) as i32,
+            h: w,
+            d: (d as i64 + shift as i64).clamp(i32::MIN as i64, i32::MAX as i64) as i32,
+            shift: 0,
+        }
+    } else {
+        Item::Boxy { w, h, d, shift }
+    }
+}
+
+/// None = the node kind is outside the property's quantifier (todo!() in the code).
+fn convert(list: &[ds::Horizontal], swapped: bool) -> Option<Vec<Item>> {
+    let mut out = Vec::with_capacity(list.len());
+    for e in list {
+        use ds::Horizontal as H;
+        out.push(match e {
+            H::Char(ds::Char { char, font }) | H::Ligature(ds::Ligature { char, font, .. }) => {
+                let d = synth_dims(*char, *font)?;
+                Item::Boxy { w: d[0], h: d[1], d: d[2], shift: 0 }
+            }
+            H::HBox(b) => boxy(b.width.0, b.height.0, b.depth.0, b.shift_amount.0, swapped),
+            H::VBox(b) => boxy(b.width.0, b.height.0, b.depth.0, b.shift_amount.0, swapped),
+            H::Rule(r) => boxy(r.width.0, r.height.0, r.depth.0, 0, swapped),
+            H::Glue(g) => Item::Glue {
+                w: g.value.width.0,
+                stretch: g.value.stretch.0,
+                stretch_order: ord_of(g.value.stretch_order),
+                shrink: g.value.shrink.0,
+                shrink_order: ord_of(g.value.shrink_order),
+            },
+            H::Kern(k) => Item::Kern { w: k.width.0 },
+            H::Penalty(_) | H::Discretionary(_) => Item::Inert,
+            H::Mark(_) | H::Insertion(_) | H::Adjust(_) | H::Math(_) | H::Whatsit(_) => return None,
+        });
+    }
+    Some(out)
+}
+
+/// Trigger predicate of C15-box-rule-width-height-swapped: some box or rule has
+/// height - shift != width (then, and only then, the swap is observable).
+fn swap_trigger(list: &[ds::Horizontal]) -> bool {
+    list.iter().any(|e| match e {
+        ds::Horizontal::HBox(b) => b.height.0 as i64 - b.shift_amount.0 as i64 != b.width.0 as i64,
+        ds::Horizontal::VBox(b) => b.height.0 as i64 - b.shift_amount.0 as i64 != b.width.0 as i64,
+        ds::Horizontal::Rule(r) => r.height != r.width,
+        _ => false,
+    })
+}
+
+/// With 32-bit overflow checks on, does accumulating these item widths in list order, then forming
+/// width and excess, leave the i32 range? (Only reachable through the swap deviation, where a
+/// running rule height of -2^31 is added to the natural width.)
+fn i32_overflow_predicted(items: &[Item], target: Target) -> bool {
+    let mut nat: i32 = 0;
+    for it in items {
+        let w = match *it {
+            Item::Boxy { w, .. } | Item::Glue { w, .. } | Item::Kern { w } => w,
+            Item::Inert => 0,
+        };
+        match nat.checked_add(w) {
+            Some(v) => nat = v,
+            None => return true,
+        }
+    }
+    let width = match target {
+        Target::Exactly(w) => w,
+        Target::Additional(a) => match nat.checked_add(a) {
+            Some(v) => v,
+            None => return true,
+        },
+    };
+    match width.checked_sub(nat) {
+        Some(x) => x == i32::MIN,
+        None => true,
+    }
+}
+
+// ------------------------------------------------------------------------------------------
+// generators
+
+fn glue(w: i32, st: i32, so: usize, sh: i32, ho: usize) -> ds::Horizontal {
+    ds::Horizontal::Glue(ds::Glue {
+        value: common::Glue {
+            width: Scaled(w),
+            stretch: Scaled(st),
+            stretch_order: order_from(so),
+            shrink: Scaled(sh),
+            shrink_order: order_from(ho),
+        },
+        kind: ds::GlueKind::Normal,
+    })
+}
+
+fn ch(c: char, font: u32) -> ds::Horizontal {
+    ds::Horizontal::Char(ds::Char { char: c, font })
+}
+
+/// Amounts chosen from a small palette so that totals of one order cancel often.
+fn amount(rng: &mut Rng) -> i32 {
+    match rng.below(16) {
+        0..=2 => 0,
+        3 | 4 => PT,
+        5 | 6 => -PT,
+        7 => 2 * PT,
+        8 => -2 * PT,
+        9 => 1,
+        10 => -1,
+        11 => 3 * PT + 1,
+        12 => rng.range_i32(-5 * PT, 5 * PT),
+        13 => rng.range_i32(0, 40 * PT),
+        14 => rng.range_i32(0, 3),
+        _ => rng.range_i32(-(1 << 24), 1 << 24),
+    }
+}
+
+fn small_dim(rng: &mut Rng) -> i32 {
+    match rng.below(8) {
+        0 => 0,
+        1 => rng.range_i32(-3 * PT, 0),
+        2 => rng.range_i32(-(1 << 22), 1 << 22),
+        _ => rng.range_i32(0, 12 * PT),
+    }
+}
+
+fn rand_char(rng: &mut Rng) -> char {
+    (b'a' + rng.below(26) as u8) as char
+}
+
+fn rand_disc_elems(rng: &mut Rng) -> Vec<ds::DiscretionaryElem> {
+    (0..rng.below(3))
+        .map(|_| match rng.below(3) {
+            0 => ds::DiscretionaryElem::Kern(ds::Kern { width: Scaled(small_dim(rng)), kind: ds::KernKind::Normal }),
+            _ => ds::DiscretionaryElem::Char(ds::Char { char: rand_char(rng), font: rng.below(3) as u32 }),
+        })
+        .collect()
+}
+
+fn rand_hbox(rng: &mut Rng, depth: u32) -> ds::HBox {
+    let inner = if depth < 2 && rng.chance(1, 3) {
+        (0..rng.below(3)).map(|_| rand_item(rng, depth + 1)).collect()
+    } else {
+        vec![]
+    };
+    ds::HBox {
+        height: Scaled(small_dim(rng)),
+        width: Scaled(small_dim(rng)),
+        depth: Scaled(small_dim(rng)),
+        shift_amount: Scaled(match rng.below(4) {
+            0 => 0,
+            _ => rng.range_i32(-6 * PT, 6 * PT),
+        }),
+        list: inner,
+        glue_ratio: ds::GlueRatio { num: Scaled(rng.range_i32(0, 3)), den: Scaled(1) },
+        glue_order: order_from(rng.usize_below(4)),
+    }
+}
+
+fn rand_item(rng: &mut Rng, depth: u32) -> ds::Horizontal {
+    use ds::Horizontal as H;
+    match rng.weighted(&[22, 5, 8, 6, 8, 3, 4, 4, 40]) {
+        0 => ch(rand_char(rng), rng.below(3) as u32),
+        1 => H::Ligature(ds::Ligature {
+            char: rand_char(rng),
+            font: rng.below(3) as u32,
+            original_chars: Rc::from("fi"),
+            includes_left_boundary: rng.chance(1, 8),
+            includes_right_boundary: rng.chance(1, 8),
+        }),
+        2 => H::Kern(ds::Kern {
+            width: Scaled(small_dim(rng)),
+            kind: *rng.pick(&[ds::KernKind::Normal, ds::KernKind::Explicit, ds::KernKind::Accent, ds::KernKind::Math]),
+        }),
+        3 => {
+            let running = rng.chance(1, 4);
+            H::Rule(ds::Rule {
+                height: if running && rng.coin() { ds::Rule::RUNNING } else { Scaled(small_dim(rng)) },
+                width: Scaled(small_dim(rng)),
+                depth: if running && rng.coin() { ds::Rule::RUNNING } else { Scaled(small_dim(rng)) },
+            })
+        }
+        4 => H::HBox(rand_hbox(rng, depth)),
+        5 => H::VBox(ds::VBox {
+            height: Scaled(small_dim(rng)),
+            width: Scaled(small_dim(rng)),
+            depth: Scaled(small_dim(rng)),
+            shift_amount: Scaled(rng.range_i32(-4 * PT, 4 * PT)),
+            list: vec![],
+            glue_ratio: Default::default(),
+            glue_order: GlueOrder::Normal,
+        }),
+        6 => H::Penalty(ds::Penalty(rng.range_i32(-10000, 10000))),
+        7 => H::Discretionary(ds::Discretionary {
+            pre_break: rand_disc_elems(rng),
+            post_break: rand_disc_elems(rng),
+            replace_count: 0,
+        }),
+        _ => {
+            // glue: orders biased so that a higher order is frequently present with zero total
+            let so = rng.weighted(&[5, 3, 2, 1]);
+            let ho = rng.weighted(&[6, 2, 1, 1]);
+            glue(small_dim(rng), amount(rng), so, amount(rng), ho)
+        }
+    }
+}
+
+fn rand_list(rng: &mut Rng) -> Vec<ds::Horizontal> {
+    let n = match rng.below(10) {
+        0 => rng.usize_below(2),
+        1..=6 => rng.range_usize(1, 8),
+        7 | 8 => rng.range_usize(4, 16),
+        _ => rng.range_usize(10, 40),
+    };
+    (0..n).map(|_| rand_item(rng, 0)).collect()
+}
+
+/// Targets at natural ± {0, 1sp, shrink, shrink+1sp, stretch, ...}.
+fn rand_target(rng: &mut Rng, items: &[Item]) -> (ds::PackWidth, Target) {
+    let t = model::totals(items);
+    let hs = |a: &[i64; 4]| -> i64 {
+        for o in (0..4).rev() {
+            if a[o] != 0 {
+                return a[o];
+            }
+        }
+        0
+    };
+    let sh = hs(&t.total_shrink);
+    let st = hs(&t.total_stretch);
+    let fin_sh = t.total_shrink[0];
+    let delta: i64 = match rng.below(20) {
+        0 | 1 => 0,
+        2 => 1,
+        3 => -1,
+        4 => -sh,
+        5 => -sh - 1,
+        6 => -sh + 1,
+        7 => -fin_sh,
+        8 => -fin_sh - 1,
+        9 => -fin_sh + 1,
+        10 => st,
+        11 => st / 2,
+        12 => -sh / 2,
+        13 => rng.range_i64(-(20 * PT as i64), 0),
+        14 => rng.range_i64(0, 20 * PT as i64),
+        15 => rng.range_i64(-(1 << 26), 1 << 26),
+        16 => -(fin_sh.abs()) - rng.range_i64(0, 3),
+        17 => rng.range_i64(-3, 3),
+        18 => 20001 * st.abs().min(1 << 10),
+        _ => rng.range_i64(-(5 * PT as i64), 5 * PT as i64),
+    };
+    let delta = delta.clamp(-(1 << 28), 1 << 28) as i32;
+    if rng.coin() {
+        (ds::PackWidth::Additional(Scaled(delta)), Target::Additional(delta))
+    } else {
+        let w = (t.natural + delta as i64).clamp(-(1 << 30), 1 << 30) as i32;
+        (ds::PackWidth::Exact(Scaled(w)), Target::Exactly(w))
+    }
+}
+
+// ------------------------------------------------------------------------------------------
+// the check
+
+/// Local counters (flushed once per case index; `Obs::count` costs a map lookup).
+#[derive(Default)]
+struct Tally(std::collections::BTreeMap<&'static str, u64>);
+impl Tally {
+    fn hit(&mut self, k: &'static str) {
+        *self.0.entry(k).or_insert(0) += 1;
+    }
+    fn flush(self, obs: &mut Obs) {
+        for (k, v) in self.0 {
+            obs.add(k, v);
+        }
+    }
+}
+
+const ORDER_NAMES: [&str; 4] = ["normal", "fil", "fill", "filll"];
+
+fn describe(list: &[ds::Horizontal]) -> Vec<String> {
+    list.iter()
+        .map(|e| {
+            use ds::Horizontal as H;
+            match e {
+                H::Char(c) => format!("char {:?} font {}", c.char, c.font),
+                H::Ligature(l) => format!("lig {:?} font {}", l.char, l.font),
+                H::HBox(b) => format!("hbox w={} h={} d={} shift={}", b.width.0, b.height.0, b.depth.0, b.shift_amount.0),
+                H::VBox(b) => format!("vbox w={} h={} d={} shift={}", b.width.0, b.height.0, b.depth.0, b.shift_amount.0),
+                H::Rule(r) => format!("rule w={} h={} d={}", r.width.0, r.height.0, r.depth.0),
+                H::Glue(g) => format!(
+                    "glue w={} plus {}{} minus {}{}",
+                    g.value.width.0,
+                    g.value.stretch.0,
+                    ORDER_NAMES[ord_of(g.value.stretch_order)],
+                    g.value.shrink.0,
+                    ORDER_NAMES[ord_of(g.value.shrink_order)]
+                ),
+                H::Kern(k) => format!("kern {}", k.width.0),
+                H::Penalty(p) => format!("penalty {}", p.0),
+                H::Discretionary(_) => "discretionary".to_string(),
+                _ => "other".to_string(),
+            }
+        })
+        .collect()
+}
+
+fn packed_json(p: &Packed) -> Value {
+    json!({
+        "width": p.width, "height": p.height, "depth": p.depth, "natural": p.natural, "excess": p.excess,
+        "total_stretch": p.total_stretch, "total_shrink": p.total_shrink,
+        "sign": format!("{:?}", p.sign), "order": ORDER_NAMES[p.order],
+        "glue_set": format!("{}/{}", p.set_num, p.set_den), "overfull": p.overfull,
+    })
+}
+
+/// First field in which the observed box differs from what `m` predicts (None = full match).
+/// Order is compared only when the ratio is non-zero (DESIGN G).
+fn first_difference(got: &ds::HBox, m: &Packed) -> Option<&'static str> {
+    if got.width.0 as i64 != m.width {
+        return Some("width-differs-from-tex");
+    }
+    if got.height.0 as i64 != m.height {
+        return Some("height-differs-from-tex");
+    }
+    if got.depth.0 as i64 != m.depth {
+        return Some("depth-differs-from-tex");
+    }
+    let (mn, md) = m.abs_ratio();
+    let gn = (got.glue_ratio.num.0 as i64).abs();
+    let gd = (got.glue_ratio.den.0 as i64).abs();
+    if gd == 0 {
+        return Some("glue-ratio-with-zero-denominator");
+    }
+    if (gn as i128) * (md as i128) != (mn as i128) * (gd as i128) {
+        return Some(if m.overfull {
+            "overfull-box-not-set-to-ratio-one"
+        } else if mn == 0 {
+            "glue-set-although-tex-leaves-it-unset"
+        } else if gn == 0 {
+            "glue-unset-although-tex-sets-it"
+        } else {
+            "glue-ratio-differs-from-tex"
+        });
+    }
+    if mn != 0 && ord_of(got.glue_order) != m.order {
+        return Some("glue-order-differs-from-tex");
+    }
+    None
+}
+
+/// Model-free conservation check, directly on the ds nodes: if the glue is set (ratio != 0) and the
+/// box is not overfull, then |ratio| * |sum of the amounts of order `glue_order` in the direction of the
+/// excess| = |excess| exactly.
+fn fills_exactly(list: &[ds::Horizontal], got: &ds::HBox, natural: i64) -> Option<bool> {
+    let x = got.width.0 as i64 - natural;
+    let gn = (got.glue_ratio.num.0 as i64).abs();
+    let gd = (got.glue_ratio.den.0 as i64).abs();
+    if gn == 0 || x == 0 {
+        return None;
+    }
+    let mut total: i64 = 0;
+    for e in list {
+        if let ds::Horizontal::Glue(g) = e {
+            if x > 0 && g.value.stretch_order == got.glue_order {
+                total += g.value.stretch.0 as i64;
+            }
+            if x < 0 && g.value.shrink_order == got.glue_order {
+                total += g.value.shrink.0 as i64;
+            }
+        }
+    }
+    Some((gn as i128) * (total.abs() as i128) == (x.abs() as i128) * (gd as i128))
+}
+
+/// vcore finds the repo frame of a panic from the backtrace; when the panicking repo function was
+/// inlined into the monitor (e.g. `Scaled::add_assign` inside `HBox::pack` inside our closure) no
+/// frame carries a /repo path although the panic *location* is a repo file. Work-around (vcore is
+/// not ours to edit): take file and function from the location.
+fn locate_inlined_repo_panic(mut p: PanicInfo) -> PanicInfo {
+    if !p.budget && !p.in_harness && p.repo_file.is_empty() {
+        let root = repo_dir();
+        if let Ok(rel) = std::path::Path::new(&p.file).strip_prefix(&root) {
+            p.repo_file = rel.display().to_string();
+            p.repo_function = "(inlined)".to_string();
+        }
+    }
+    p
+}
+
+struct Case {
+    list: Vec<ds::Horizontal>,
+    pack: ds::PackWidth,
+    target: Target,
+}
+
+fn dom_trigger(m: &Packed) -> bool {
+    (m.excess > 0 && m.max_order_present_stretch > m.order) || (m.excess < 0 && m.max_order_present_shrink > m.order)
+}
+
+fn check_case(case: Case, obs: &mut Obs, tally: &mut Tally, in_known_phase: bool) {
+    let Case { list, pack, target } = case;
+    let Some(items) = convert(&list, false) else {
+        obs.skip("node kind outside quantifier");
+        return;
+    };
+    let m = model::hpack(&items, target);
+    let input = list.clone();
+    let swap_trig = swap_trigger(&input);
+    let got = match catch(|| ds::HBox::pack(&SynthFont, list, pack)) {
+        Ok(b) => b,
+        Err(p) => {
+            let p = locate_inlined_repo_panic(p);
+            let d = json!({"list": describe(&input), "target": format!("{target:?}")});
+            let swapped = convert(&input, true).unwrap_or_default();
+            if p.in_repo() && swap_trig && i32_overflow_predicted(&swapped, target) && !i32_overflow_predicted(&items, target) {
+                // the swap deviation model predicts exactly this: a (running) rule height ends up
+                // in the natural width and the 32-bit sum overflows
+                obs.known(KNOWN_SWAP, json!({"panic": p.signature(), "case": d}));
+                tally.hit("known:swap(panic-on-running-rule)");
+            } else {
+                obs.repo_panic(&p, d);
+            }
+            return;
+        }
+    };
+    tally.hit("packs");
+
+    // classes observed (by TeX's reading of the case)
+    match m.sign {
+        Sign::Normal => {
+            if m.excess == 0 {
+                tally.hit("class:exact-natural-width");
+            } else if m.excess > 0 {
+                tally.hit("class:unset-nothing-to-stretch");
+            } else if m.overfull {
+                tally.hit("class:overfull-no-shrink-at-all");
+            } else {
+                tally.hit("class:unset-nothing-to-shrink");
+            }
+        }
+        Sign::Stretching => tally.hit(["class:stretch-normal", "class:stretch-fil", "class:stretch-fill", "class:stretch-filll"][m.order]),
+        Sign::Shrinking => {
+            if m.overfull {
+                tally.hit("class:overfull-ratio-one");
+            } else {
+                tally.hit(["class:shrink-normal", "class:shrink-fil", "class:shrink-fill", "class:shrink-filll"][m.order]);
+            }
+        }
+    }
+    if m.excess < 0 && m.order == 0 && m.total_shrink[0] == -m.excess && m.total_shrink[0] != 0 {
+        tally.hit("boundary:shrink-exactly-used-up");
+    }
+    if m.excess < 0 && m.order == 0 && m.total_shrink[0] + 1 == -m.excess {
+        tally.hit("boundary:overfull-by-1sp");
+    }
+    if m.sign != Sign::Normal && m.set_den < 0 {
+        tally.hit("class:negative-total-sets-glue");
+    }
+    if dom_trigger(&m) {
+        tally.hit("class:higher-order-present-with-zero-total");
+    }
+    if swap_trig {
+        tally.hit("class:has-box-or-rule-with-width!=height-shift");
+    }
+    if items.iter().any(|i| matches!(i, Item::Boxy { shift, .. } if *shift != 0)) {
+        tally.hit("class:has-shifted-box");
+    }
+
+    let detail = |what: &str, got: &ds::HBox, m: &Packed, extra: Value| -> Value {
+        json!({
+            "what": what,
+            "list": describe(&input),
+            "target": format!("{target:?}"),
+            "observed": {
+                "width": got.width.0, "height": got.height.0, "depth": got.depth.0,
+                "shift_amount": got.shift_amount.0,
+                "glue_ratio": format!("{}/{}", got.glue_ratio.num.0, got.glue_ratio.den.0),
+                "glue_ratio_printed": format!("{}", got.glue_ratio),
+                "glue_order": ORDER_NAMES[ord_of(got.glue_order)],
+            },
+            "tex_model": packed_json(m),
+            "extra": extra,
+        })
+    };
+
+    if got.shift_amount.0 != 0 {
+        obs.violation("fresh-box-has-shift", detail("shift_amount", &got, &m, Value::Null));
+        return;
+    }
+    if got.list != input {
+        obs.violation("list-altered-by-pack", detail("list", &got, &m, Value::Null));
+        return;
+    }
+
+    // The observed box must equal TeX's. If it does not, it may only equal the prediction of a
+    // deviation model whose trigger predicate holds (known findings); anything else is a violation.
+    let matched: Packed;
+    match first_difference(&got, &m) {
+        None => {
+            if in_known_phase {
+                tally.hit("known-reproducer-now-matches-tex");
+            }
+            matched = m.clone();
+        }
+        Some(sig) => {
+            let mut attributed: Option<(Packed, Vec<&'static str>)> = None;
+            for (swap, dom) in [(false, true), (true, false), (true, true)] {
+                if swap && !swap_trig {
+                    continue;
+                }
+                let its = if swap { convert(&input, true).unwrap_or_default() } else { items.clone() };
+                let base = model::hpack(&its, target);
+                if dom && !dom_trigger(&base) {
+                    continue;
+                }
+                let dm = if dom { model::hpack_dominating_order_only(&its, target) } else { base };
+                if first_difference(&got, &dm).is_none() {
+                    let mut ids = vec![];
+                    if swap {
+                        ids.push(KNOWN_SWAP);
+                    }
+                    if dom {
+                        ids.push(KNOWN_DOM);
+                    }
+                    attributed = Some((dm, ids));
+                    break;
+                }
+            }
+            match attributed {
+                Some((dm, ids)) => {
+                    for id in &ids {
+                        obs.known(id, detail("observed box equals the deviation model's prediction", &got, &m, json!({"deviation_model": packed_json(&dm), "deviations": ids})));
+                        tally.hit(if *id == KNOWN_SWAP { "known:swap" } else { "known:dominating-order-only" });
+                    }
+                    matched = dm;
+                }
+                None => {
+                    obs.violation(sig, detail(sig, &got, &m, json!({"swap_trigger": swap_trig, "dominating_order_trigger": dom_trigger(&m)})));
+                    return;
+                }
+            }
+        }
+    }
+
+    // printed form (§186), through the repository's own Display, with f32 tolerance
+    let (n, d) = matched.abs_ratio();
+    let want = model::printed_glue_set_exact(n, d);
+    let printed = format!("{}", got.glue_ratio);
+    match model::parse_scaled(&printed) {
+        Some(v) => {
+            let tol = 2 + (want >> 21);
+            if (v - want).abs() > tol {
+                obs.violation(
+                    "printed-glue-set-differs",
+                    detail("printed glue set", &got, &m, json!({"printed": printed, "want_scaled": want, "want": model::print_scaled(want)})),
+                );
+                return;
+            }
+            if want >= 20000 * 65536 {
+                tally.hit("printed:capped-at-20000");
+            }
+        }
+        None => {
+            obs.violation("printed-glue-set-unparsable", detail("printed glue set", &got, &m, json!({"printed": printed})));
+            return;
+        }
+    }
+
+    // conservation (only meaningful where the box is neither overfull nor unset)
+    if !matched.overfull {
+        match fills_exactly(&input, &got, matched.natural) {
+            Some(true) => tally.hit("conservation:fills-exactly"),
+            Some(false) => {
+                // the model accepted the setting but the direct computation disagrees: the two
+                // formulations are inconsistent, which is a harness problem, not a verdict
+                obs.inconclusive("model accepted a glue setting that does not fill the box exactly");
+            }
+            None => {}
+        }
+    }
+
+    if items.iter().any(|i| matches!(i, Item::Glue { .. })) {
+        obs.nontrivial(&(&items, m.width));
+    }
+    if obs.wants_sample() {
+        obs.sample(detail("sample", &got, &m, Value::Null));
+    }
+}
+
+// ------------------------------------------------------------------------------------------
+// enumerated sub-space: a fixed character followed by k glue nodes from a palette
+
+const ENUM_AMOUNTS: [i32; 3] = [-PT, 0, PT];
+const ENUM_DELTAS: [i32; 7] = [-2 * PT - 1, -2 * PT, -PT, -1, 0, 1, PT];
+/// 4 orders × 3 amounts for stretch, same for shrink
+const ENUM_SPECS: u64 = 12 * 12;
+
+fn enum_glue(code: u64) -> ds::Horizontal {
+    let st = code % 12;
+    let sh = code / 12;
+    glue(
+        PT,
+        ENUM_AMOUNTS[(st % 3) as usize],
+        (st / 3) as usize,
+        ENUM_AMOUNTS[(sh % 3) as usize],
+        (sh / 3) as usize,
+    )
+}
+
+fn known_cases() -> Vec<(Vec<ds::Horizontal>, i32)> {
+    vec![
+        // glue(0pt plus 10pt) next to glue(0pt plus 0fil), box 5pt wider than natural: TeX 0.5
+        (vec![ch('a', 0), glue(0, 10 * PT, 0, 0, 0), glue(0, 0, 1, 0, 0)], 5 * PT),
+        // 1fil + -1fil cancel next to finite stretch: TeX 0.5
+        (vec![ch('a', 0), glue(0, PT, 1, 0, 0), glue(0, 10 * PT, 0, 0, 0), glue(0, -PT, 1, 0, 0)], 5 * PT),
+        // same on the shrink side: 0fil shrink hides 10pt of finite shrink, box 5pt narrower
+        (vec![ch('a', 0), glue(10 * PT, 0, 0, 10 * PT, 0), glue(0, 0, 0, 0, 1)], -5 * PT),
+        // a rule 10pt wide and 2pt high: TeX adds 10pt to the width; the code adds 2pt and takes 10pt as height
+        (
+            vec![ch('a', 0), ds::Horizontal::Rule(ds::Rule { width: Scaled(10 * PT), height: Scaled(2 * PT), depth: Scaled(PT) })],
+            0,
+        ),
+        // a lowered hbox next to stretchable glue
+        (
+            vec![
+                ds::Horizontal::HBox(ds::HBox {
+                    width: Scaled(10 * PT),
+                    height: Scaled(3 * PT),
+                    depth: Scaled(PT),
+                    shift_amount: Scaled(PT),
+                    ..Default::default()
+                }),
+                glue(0, 10 * PT, 0, 0, 0),
+            ],
+            5 * PT,
+        ),
+        // a rule with running height after negative glue: the running height (-2^31) is added to the
+        // natural width and the 32-bit sum overflows
+        (
+            vec![
+                glue(-PT, 0, 0, 0, 0),
+                ds::Horizontal::Rule(ds::Rule { width: Scaled(PT), height: ds::Rule::RUNNING, depth: ds::Rule::RUNNING }),
+            ],
+            0,
+        ),
+    ]
+}
 
 impl Monitor for M {
     fn id(&self) -> &'static str {
         "C15"
     }
     fn rule(&self) -> String {
-        "not built yet".into()
+        "Each case is a horizontal list (chars, ligatures, kerns of all kinds, rules incl. running height/depth, \
+         nested shifted h/vboxes, penalties, discretionaries, glue of all four stretch and shrink orders with \
+         positive/zero/negative amounts from a palette that makes totals cancel) and a target (Exact or Additional) \
+         placed at natural ± {0, 1sp, shrink, shrink±1sp, stretch, ...}. It is packed by the real HBox::pack with a \
+         synthetic FontRepo and compared field by field with vmodels::hpack (TeX §649-667). Phase 'enum' enumerates \
+         all lists 'char + k glue nodes' over a palette of 144 glue specs (4 orders x {-1pt,0,1pt} for stretch and \
+         for shrink) at 7 targets. A case is non-trivial if the list contains glue; distinct = hash of (model items, width)."
+            .into()
     }
     fn assumptions(&self) -> Vec<String> {
-        vec![]
+        vec![
+            "HBox has no glue_sign field; the repository's GlueRatio equality and Display ignore the sign. The monitor compares |ratio| and takes the direction from the sign of the excess, as TeX does.".into(),
+            "The printed form goes through f32 in the code; it is compared with the exactly rounded value within a relative tolerance of 2^-21 (+2 units).".into(),
+            "Mark/Insertion/Adjust/Math/Whatsit nodes are outside the quantifier (todo!() or undefined width in the code) and are not generated.".into(),
+            "All characters used exist in the synthetic font (a missing character is skipped by the code; TeX never creates such a node).".into(),
+            "Dimensions are kept below 2^24sp per item and lists below 41 items so that no sum overflows i32 (TeX itself does not guard these sums).".into(),
+        ]
     }
-    fn phases(&self, _tier: Tier) -> Vec<Phase> {
-        vec![]
+    fn phases(&self, tier: Tier) -> Vec<Phase> {
+        let mut v = vec![
+            Phase::new("known", known_cases().len() as u64).batch(1),
+            Phase::new("enum2", ENUM_SPECS * ENUM_SPECS)
+                .batch(512)
+                .exhaustive("char + 2 glue nodes, each from 144 specs (4 orders x {-1pt,0,1pt} stretch and shrink), x 7 targets"),
+        ];
+        if tier == Tier::Thorough {
+            v.push(
+                Phase::new("enum3", ENUM_SPECS * ENUM_SPECS * ENUM_SPECS)
+                    .batch(8192)
+                    .exhaustive("char + 3 glue nodes, each from 144 specs, x 7 targets"),
+            );
+        }
+        // one index = 32 random lists
+        v.push(Phase::new("random", tier.pick(10_000, 1_000_000)).batch(tier.pick(64, 1024)));
+        v
     }
-    fn run_case(&self, _phase: &str, _idx: u64, _rng: &mut Rng, _obs: &mut Obs) {}
+    fn floors(&self, tier: Tier) -> Vec<(&'static str, u64)> {
+        let s = tier.pick(1, 50);
+        vec![
+            ("packs", tier.pick(400_000, 30_000_000)),
+            ("class:stretch-normal", 2000 * s),
+            ("class:stretch-fil", 2000 * s),
+            ("class:stretch-fill", 1000 * s),
+            ("class:stretch-filll", 500 * s),
+            ("class:shrink-normal", 1000 * s),
+            ("class:shrink-fil", 1000 * s),
+            ("class:shrink-fill", 500 * s),
+            ("class:shrink-filll", 500 * s),
+            ("class:overfull-ratio-one", 2000 * s),
+            ("class:overfull-no-shrink-at-all", 500 * s),
+            ("class:unset-nothing-to-stretch", 500 * s),
+            ("class:unset-nothing-to-shrink", 200 * s),
+            ("class:exact-natural-width", 2000 * s),
+            ("class:negative-total-sets-glue", 500 * s),
+            ("class:has-shifted-box", 2000 * s),
+            ("boundary:shrink-exactly-used-up", 300 * s),
+            ("boundary:overfull-by-1sp", 300 * s),
+            ("conservation:fills-exactly", 10_000 * s),
+            ("printed:capped-at-20000", 20 * s),
+        ]
+    }
+    fn calibrate(&self, obs: &mut Obs) {
+        calibrate_impl(obs);
+    }
+    fn run_case(&self, phase: &str, idx: u64, rng: &mut Rng, obs: &mut Obs) {
+        let mut tally = Tally::default();
+        match phase {
+            "known" => {
+                let (list, delta) = known_cases().swap_remove(idx as usize);
+                check_case(
+                    Case { list, pack: ds::PackWidth::Additional(Scaled(delta)), target: Target::Additional(delta) },
+                    obs,
+                    &mut tally,
+                    true,
+                );
+            }
+            "enum2" | "enum3" => {
+                let k = if phase == "enum2" { 2 } else { 3 };
+                let mut list = vec![ch('a', 0)];
+                let mut c = idx;
+                for _ in 0..k {
+                    list.push(enum_glue(c % ENUM_SPECS));
+                    c /= ENUM_SPECS;
+                }
+                for (j, delta) in ENUM_DELTAS.iter().enumerate() {
+                    // alternate Exact / Additional
+                    let items = convert(&list, false).expect("enum lists are convertible");
+                    let nat = model::totals(&items).natural as i32;
+                    let (pack, target) = if (idx + j as u64) % 2 == 0 {
+                        (ds::PackWidth::Additional(Scaled(*delta)), Target::Additional(*delta))
+                    } else {
+                        (ds::PackWidth::Exact(Scaled(nat + *delta)), Target::Exactly(nat + *delta))
+                    };
+                    check_case(Case { list: list.clone(), pack, target }, obs, &mut tally, false);
+                }
+                obs.nontrivial_by_construction(0);
+            }
+            _ => {
+                for _ in 0..32 {
+                    let list = rand_list(rng);
+                    let Some(items) = convert(&list, false) else { continue };
+                    let (pack, target) = rand_target(rng, &items);
+                    check_case(Case { list, pack, target }, obs, &mut tally, false);
+                }
+            }
+        }
+        tally.flush(obs);
+    }
+    fn stack_bytes(&self) -> usize {
+        64 << 20
+    }
+}
+
+// ------------------------------------------------------------------------------------------
+// calibration of the MODEL against TeX-produced ground truth in the repository
+
+/// Metrics of cmr10 read through the repository's tfm crate (input preparation only).
+struct Cmr10(tfm::File);
+
+impl Cmr10 {
+    fn dims(&self, c: char) -> Option<[i32; 3]> {
+        Some([
+            self.0.width_utf8(c)?.0,
+            self.0.height_utf8(c).map(|s| s.0).unwrap_or(0),
+            self.0.depth_utf8(c).map(|s| s.0).unwrap_or(0),
+        ])
+    }
+}
+
+fn convert_with(list: &[ds::Horizontal], font: &Cmr10) -> Option<Vec<Item>> {
+    let mut out = vec![];
+    for e in list {
+        use ds::Horizontal as H;
+        out.push(match e {
+            H::Char(ds::Char { char, .. }) | H::Ligature(ds::Ligature { char, .. }) => {
+                let d = font.dims(*char)?;
+                Item::Boxy { w: d[0], h: d[1], d: d[2], shift: 0 }
+            }
+            H::HBox(b) => Item::Boxy { w: b.width.0, h: b.height.0, d: b.depth.0, shift: b.shift_amount.0 },
+            H::VBox(b) => Item::Boxy { w: b.width.0, h: b.height.0, d: b.depth.0, shift: b.shift_amount.0 },
+            H::Rule(r) => Item::Boxy { w: r.width.0, h: r.height.0, d: r.depth.0, shift: 0 },
+            H::Glue(g) => Item::Glue {
+                w: g.value.width.0,
+                stretch: g.value.stretch.0,
+                stretch_order: ord_of(g.value.stretch_order),
+                shrink: g.value.shrink.0,
+                shrink_order: ord_of(g.value.shrink_order),
+            },
+            H::Kern(k) => Item::Kern { w: k.width.0 },
+            H::Penalty(_) | H::Discretionary(_) => Item::Inert,
+            _ => return None,
+        });
+    }
+    Some(out)
+}
+
+fn calibrate_impl(obs: &mut Obs) {
+    // (a) arithmetic helpers against values quoted in tex.web / the TeXbook
+    for (v, s) in [(65536i64, "1.0"), (0, "0.0"), (32768, "0.5"), (1, "0.00002"), (-98304, "-1.5")] {
+        obs.count("cal:print_scaled checks");
+        if model::print_scaled(v) != s {
+            obs.violation("print_scaled", json!({"v": v, "want": s, "got": model::print_scaled(v)}));
+        }
+        if v >= 0 && model::parse_scaled(&model::print_scaled(v)) != Some(v) {
+            obs.violation("print_scaled-roundtrip", json!({"v": v}));
+        }
+    }
+    for (t, s, b) in [(65536i64, 65536i64, 100), (32768, 65536, 12), (65536, 32768, 800), (0, 0, 0), (5, 0, 10000)] {
+        obs.count("cal:badness checks");
+        if model::badness(t, s) != b {
+            obs.violation("badness", json!({"t": t, "s": s, "want": b, "got": model::badness(t, s)}));
+        }
+    }
+
+    // (b) every line box in the TeX-produced want-files (boxworks-knuthplass/testdata/*_want.txt and
+    // the ragged-right files): TeX packed exactly these contents to exactly this width and printed
+    // height, depth, "glue set" and order. The model must reproduce all of them.
+    let repo = repo_dir();
+    let tfm_bytes = match std::fs::read(repo.join("crates/tfm/corpus/computer-modern/cmr10.tfm")) {
+        Ok(b) => b,
+        Err(e) => {
+            obs.inconclusive(format!("cannot read cmr10.tfm: {e}"));
+            return;
+        }
+    };
+    let Ok(file) = tfm::File::deserialize(&tfm_bytes).0 else {
+        obs.inconclusive("cmr10.tfm does not deserialize");
+        return;
+    };
+    let font = Cmr10(file);
+    let dir = repo.join("crates/boxworks-knuthplass/testdata");
+    let mut names: Vec<_> = match std::fs::read_dir(&dir) {
+        Ok(rd) => rd
+            .filter_map(|e| e.ok())
+            .map(|e| e.path())
+            .filter(|p| {
+                let n = p.file_name().and_then(|n| n.to_str()).unwrap_or("");
+                n.ends_with("_want.txt") || n.starts_with("wolf_hall_ragged_right") && !n.ends_with("_log.txt")
+            })
+            .collect(),
+        Err(e) => {
+            obs.inconclusive(format!("cannot list {}: {e}", dir.display()));
+            return;
+        }
+    };
+    names.sort();
+    for path in names {
+        let Ok(text) = std::fs::read_to_string(&path) else {
+            obs.inconclusive(format!("cannot read {}", path.display()));
+            continue;
+        };
+        let parsed = catch(|| boxworks::lang::parse_horizontal_list(&text).map_err(|e| e.len()));
+        let list = match parsed {
+            Ok(Ok(l)) => l,
+            _ => {
+                obs.inconclusive(format!("golden {} does not parse", path.display()));
+                continue;
+            }
+        };
+        obs.count("cal:golden files");
+        for top in &list {
+            let ds::Horizontal::VBox(vb) = top else { continue };
+            for v in &vb.list {
+                let ds::Vertical::HBox(hb) = v else { continue };
+                let Some(items) = convert_with(&hb.list, &font) else {
+                    obs.inconclusive(format!("golden {} has an unconvertible line", path.display()));
+                    continue;
+                };
+                obs.count("cal:golden line boxes");
+                let m = model::hpack(&items, Target::Exactly(hb.width.0));
+                let (n, d) = m.abs_ratio();
+                let want_printed = (hb.glue_ratio.num.0 as i64).abs();
+                let got_printed = model::printed_glue_set_exact(n, d);
+                let ok_ratio = (want_printed - got_printed).abs() <= 1;
+                let ok_order = n == 0 || m.order == ord_of(hb.glue_order);
+                let ok_dims = m.height == hb.height.0 as i64 && m.depth == hb.depth.0 as i64;
+                match (m.sign, m.overfull) {
+                    (_, true) => obs.count("cal:golden overfull boxes"),
+                    (Sign::Stretching, _) if m.order > 0 => obs.count("cal:golden fil-stretched boxes"),
+                    (Sign::Stretching, _) => obs.count("cal:golden stretched boxes"),
+                    (Sign::Shrinking, _) => obs.count("cal:golden shrunk boxes"),
+                    (Sign::Normal, _) => obs.count("cal:golden unset boxes"),
+                }
+                if !(ok_ratio && ok_order && ok_dims) {
+                    obs.violation(
+                        "hpack-model-vs-tex-golden",
+                        json!({
+                            "file": path.display().to_string(),
+                            "golden": {"height": hb.height.0, "depth": hb.depth.0, "width": hb.width.0,
+                                       "glue_set_scaled": want_printed, "order": ORDER_NAMES[ord_of(hb.glue_order)]},
+                            "model": packed_json(&m), "model_printed_scaled": got_printed,
+                        }),
+                    );
+                }
+            }
+        }
+    }
 }
